@@ -54,11 +54,12 @@ func Check(v any) error {
 		apiTag := sf.Tag.Get("api")
 		name := sf.Tag.Get("json")
 
-		if sf.Name == "ID" || apiTag == "" {
+		if apiTag == "" {
 			continue
 		}
 
-		isField := apiTag == "attr" || apiTag == "rel" || strings.HasPrefix(apiTag, "rel,")
+		isField := sf.Name != "ID" &&
+			(apiTag == "attr" || apiTag == "rel" || strings.HasPrefix(apiTag, "rel,"))
 
 		if (isField && (name == "" || name == "id")) || (name != "" && names[name]) {
 			return fmt.Errorf(
